@@ -30,7 +30,11 @@ def skeleton(guard):
     # `x?` continues exactly when x is Some / Ok: the outcome of a `?` and of an `if let Some(..)` / `match` on the same call agree
     allowed = allowed.strip().replace("['Continue']", "['+']").replace("['Some']", "['+']").replace("['Ok']", "['+']") \
         .replace("['Break']", "['-']").replace("['None']", "['-']").replace("['Err']", "['-']")
-    return (names[0] if names else "", frozenset(names[1:]), allowed)
+    if not names:
+        # a bare variable (a bool parameter such as `is_pipe`): two different ones must not stand for each other
+        bare = re.findall(r"[A-Za-z_]\w*", cond)
+        return ("var:" + (bare[0] if bare else ""), frozenset(), allowed)
+    return (names[0], frozenset(names[1:]), allowed)
 
 
 def _sk_subsumed(need, have):
@@ -55,8 +59,11 @@ def guards_hold(recorded, current):
 
 
 class Inventory:
-    def __init__(self, F, table, prefix):
+    def __init__(self, F, table, prefix, discharged=None):
         self.F, self.table, self.prefix = F, table, prefix
+        # discharged(f, bb, kind, detail, defs) -> truthy for a site a mechanical rule settles: such a site needs no entry and
+        # must not keep one from the reviewed site that was renumbered when it appeared
+        self.discharged = discharged
         self._cur = {}
         self._callers = None
         self.used = set()
@@ -94,6 +101,8 @@ class Inventory:
             out = set()
             d = FL.Defs(f)
             for b, _kind, _det, _ln, k, _e in PN.sites_in(f):
+                if self.discharged is not None and self.discharged(f, b, _kind, _det, d):
+                    continue
                 full = self.prefix + f.path + "/" + k
                 ent = self.table.get(full)
                 if isinstance(ent, dict) and guards_hold(ent.get("guards", []), FL.guard_signature(self.F, f, b, d)):
